@@ -159,6 +159,13 @@ def gen_serve(rng, count, bad=0.3, blocksizes=None, maxwords=12):
             stream = [0xC0] if serial else [0]
         allocscript = [rng.choice([1, 1, 1, 0]) for _ in range(rng.randrange(0, 4))]
         yield serve_line(serial, mem16, soct, bs, allocscript, stream, verdicts(rng, nfr))
+        # damage on the WIRE (after framing): a broken SLIP escape (ESC followed by an octet that is neither ESC_END nor ESC_ESC) or a
+        # stray octet at any position - the receiver's channel-error paths must release what the sink had allocated
+        if rng.random() < 0.35:
+            w = list(stream); pos = rng.randrange(len(w) + 1)
+            ins = [0xDB, rng.choice([0x00, 0x41, 0xC0, 0xDB, 0xDE, 0xFF])] if serial else [rng.choice([0x80, 0xFF, 0x00, 0x7F])]
+            w[pos:pos] = ins
+            yield serve_line(serial, mem16, soct, bs, allocscript, w, verdicts(rng, nfr + 1))
 
 def any_frame(rng, maxpl=12):
     """every combination of the option bits (also ones no conforming sender uses on the transport), all types and codes"""
